@@ -306,7 +306,7 @@ func C11(r *ev.Run) {
 
 func C13(r *ev.Run) {
 	r.SetRule(ruleRuns + "a watch-only node (flag set or key outside the list) received traffic while the rotation made its index the primary, or observed decisions")
-	plan := []Plan{{"watch", 3000, 100000}, {"valset", 800, 30000}}
+	plan := []Plan{{"watch", 3000, 100000}, {"valset", 800, 30000}, {"byz-flips", 300, 10000}}
 	protoCheck(r, plan, func() (vnet.Monitor, func() ([]mon.V, map[string]int64)) {
 		m := &mon.Silence{}
 		return m, func() ([]mon.V, map[string]int64) { return m.Viols, m.Cnt }
